@@ -5,6 +5,8 @@ package guardiand
 import (
 	"context"
 	"encoding/hex"
+	"encoding/json"
+	"fmt"
 	"os"
 	"testing"
 
@@ -43,8 +45,23 @@ func verifC12Code(err error) int {
 	}
 }
 
+// the servers of one node: they live as long as the store does (state kept inside a server between requests is part of what is tested)
+type verifC12Srvs struct {
+	d     *db.Database
+	plain *publicrpc.PublicrpcServer
+	gov   map[string]*publicrpc.PublicrpcServer
+	admin *nodePrivilegedService
+}
+
+func verifC12NewSrvs(d *db.Database) *verifC12Srvs {
+	return &verifC12Srvs{d: d, plain: publicrpc.NewPublicrpcServer(zap.NewNop(), d, nil, vaa.ChainIDAlephium, vaa.Address{}),
+		gov: map[string]*publicrpc.PublicrpcServer{}, admin: &nodePrivilegedService{db: d, logger: zap.NewNop()}}
+}
+
 // the four request kinds through the real PublicrpcServer methods and the real nodePrivilegedService.FindMissingMessages
-func verifC12RunRpc(d *db.Database, p *verifC12Plan, q *verifC12Query) {
+func verifC12RunRpc(sv *verifC12Srvs, p *verifC12Plan, q *verifC12Query) {
+	d := sv.d
+	_ = d
 	defer func() {
 		if r := recover(); r != nil {
 			q.Code = 4
@@ -59,7 +76,7 @@ func verifC12RunRpc(d *db.Database, p *verifC12Plan, q *verifC12Query) {
 	}
 	switch q.T {
 	case "get":
-		srv := publicrpc.NewPublicrpcServer(zap.NewNop(), d, nil, vaa.ChainIDAlephium, vaa.Address{})
+		srv := sv.plain
 		resp, err := srv.GetSignedVAA(ctx, &publicrpcv1.GetSignedVAARequest{MessageId: &publicrpcv1.MessageID{
 			EmitterChain: publicrpcv1.ChainID(q.EC), EmitterAddress: ahex, TargetChain: publicrpcv1.ChainID(q.TC), Sequence: q.Seq}})
 		q.Code = verifC12Code(err)
@@ -67,7 +84,7 @@ func verifC12RunRpc(d *db.Database, p *verifC12Plan, q *verifC12Query) {
 			q.B = hex.EncodeToString(resp.VaaBytes)
 		}
 	case "batch":
-		srv := publicrpc.NewPublicrpcServer(zap.NewNop(), d, nil, vaa.ChainIDAlephium, vaa.Address{})
+		srv := sv.plain
 		resp, err := srv.GetNonGovernanceVAABatch(ctx, &publicrpcv1.GetNonGovernanceVAABatchRequest{
 			EmitterChain: publicrpcv1.ChainID(q.EC), EmitterAddress: ahex, TargetChain: publicrpcv1.ChainID(q.TC), Sequences: q.Seqs})
 		q.Code = verifC12Code(err)
@@ -78,7 +95,12 @@ func verifC12RunRpc(d *db.Database, p *verifC12Plan, q *verifC12Query) {
 		}
 	case "gov":
 		// the governance emitter is configuration of the server: one server per asked emitter
-		srv := publicrpc.NewPublicrpcServer(zap.NewNop(), d, nil, vaa.ChainID(q.EC), p.Pool[q.AI])
+		gk := fmt.Sprintf("%d/%d", q.EC, q.AI)
+		srv := sv.gov[gk]
+		if srv == nil {
+			srv = publicrpc.NewPublicrpcServer(zap.NewNop(), d, nil, vaa.ChainID(q.EC), p.Pool[q.AI])
+			sv.gov[gk] = srv
+		}
 		resp, err := srv.GetGovernanceVAABatch(ctx, &publicrpcv1.GetGovernanceVAABatchRequest{Sequences: q.Seqs})
 		q.Code = verifC12Code(err)
 		if err == nil {
@@ -87,7 +109,7 @@ func verifC12RunRpc(d *db.Database, p *verifC12Plan, q *verifC12Query) {
 			}
 		}
 	case "gap":
-		s := &nodePrivilegedService{db: d, logger: zap.NewNop()}
+		s := sv.admin
 		resp, err := s.FindMissingMessages(ctx, &nodev1.FindMissingMessagesRequest{EmitterChain: q.EC, TargetChain: q.TC, EmitterAddress: ahex})
 		q.Code = verifC12Code(err)
 		if err == nil {
@@ -124,55 +146,101 @@ func TestVerifC12Rpc(t *testing.T) {
 		if err != nil {
 			t.Fatal(err)
 		}
+		sv := verifC12NewSrvs(d)
 		tr := verifC12NewTruth()
-		row := &verifC12Row{K: "store", H: "rpc", Idx: p.Idx, Theme: p.Theme, Mon: []string{}, MonQ: []int{}}
-		for _, op := range p.Ops {
-			b, _ := op.V.Marshal()
-			panicked, err := verifC12Store(d, op.V)
-			or := &verifC12OpRow{Panic: panicked, Err: err != nil}
-			if op.Odd == "" {
-				or.B = hex.EncodeToString(b)
-			} else {
-				or.Odd = op.Odd
-				or.V = verifC12VaaFields(op.V)
-				or.MB = hex.EncodeToString(b)
-			}
-			row.Ops = append(row.Ops, or)
-			if !panicked && err == nil {
-				tr.stored(op.V, b)
-			}
-		}
-		if qs == nil {
-			qs = verifC12Queries(r, p, true)
-		}
-		row.Q = qs
-		for qi, q := range row.Q {
-			verifC12RunRpc(d, p, q)
-			// the reference speaks about well-formed requests: a 32-byte address and 16-bit chain numbers, at most 20 sequences
-			wf := q.AHex == "" && q.EC < 65536 && q.TC < 65536 && len(q.Seqs) <= 20
-			mq := *q
-			if q.T == "gap" && q.Code == 0 {
-				// the admin call renders the missing numbers as message ids: project back to numbers for the reference
-				mq.Resp = []uint64{}
-				for _, id := range q.IDs {
-					vid, err := vaa.VaaIDFromString(id)
-					if err != nil || uint32(vid.EmitterChain) != q.EC || uint32(vid.TargetChain) != q.TC || vid.EmitterAddress != p.Pool[q.AI] {
-						if wf {
-							row.Mon = append(row.Mon, "FindMissingMessages returned the id "+id+" which does not name the requested stream")
-							row.MonQ = append(row.MonQ, qi)
-						}
-						continue
-					}
-					mq.Resp = append(mq.Resp, vid.Sequence)
+		var oprows []*verifC12OpRow
+		runOps := func(ops []*verifC12Op) {
+			for _, op := range ops {
+				b, _ := op.V.Marshal()
+				panicked, err := verifC12Store(d, op.V)
+				or := &verifC12OpRow{Panic: panicked, Err: err != nil}
+				if op.Odd == "" {
+					or.B = hex.EncodeToString(b)
+				} else {
+					or.Odd = op.Odd
+					or.V = verifC12VaaFields(op.V)
+					or.MB = hex.EncodeToString(b)
+				}
+				oprows = append(oprows, or)
+				if !panicked && err == nil {
+					tr.stored(op.V, b)
 				}
 			}
-			for _, m := range verifC12Monitor(tr, p, &mq, wf) {
-				row.Mon = append(row.Mon, m)
-				row.MonQ = append(row.MonQ, qi)
+		}
+		ask := func(row *verifC12Row2) {
+			for qi, q := range row.Q {
+				verifC12RunRpc(sv, p, q)
+				// the reference speaks about well-formed requests: a 32-byte address and 16-bit chain numbers, at most 20 sequences
+				wf := q.AHex == "" && q.EC < 65536 && q.TC < 65536 && len(q.Seqs) <= 20
+				mq := *q
+				if q.T == "gap" && q.Code == 0 {
+					// the admin call renders the missing numbers as message ids: project back to numbers for the reference
+					mq.Resp = []uint64{}
+					for _, id := range q.IDs {
+						vid, err := vaa.VaaIDFromString(id)
+						if err != nil || uint32(vid.EmitterChain) != q.EC || uint32(vid.TargetChain) != q.TC || vid.EmitterAddress != p.Pool[q.AI] {
+							if wf {
+								row.Mon = append(row.Mon, "FindMissingMessages returned the id "+id+" which does not name the requested stream")
+								row.MonQ = append(row.MonQ, qi)
+							}
+							continue
+						}
+						mq.Resp = append(mq.Resp, vid.Sequence)
+					}
+				}
+				for _, m := range verifC12Monitor(tr, p, &mq, wf) {
+					row.Mon = append(row.Mon, m)
+					row.MonQ = append(row.MonQ, qi)
+				}
 			}
 		}
-		row.Pool = verifC12PoolHex(p)
-		o.emit(row)
+		pre, q1 := verifC12ReplayPre()
+		generated := qs == nil
+		var ops2 []*verifC12Op
+		nOps1 := len(p.Ops)
+		if generated {
+			qs = verifC12Queries(r, p, true)
+			// history: later stores under ids that were already asked about (overwrites with other bytes, and the same emitter /
+			// sequence under another target chain, asked about while still absent), then every lookup again on the same servers
+			var sib []*verifC12Query
+			ops2, sib = verifC12Phase2(r, p)
+			qs = append(qs, sib...)
+		} else if pre > 0 && pre <= len(p.Ops) {
+			ops2 = p.Ops[pre:]
+			nOps1 = pre
+		}
+		runOps(p.Ops[:nOps1])
+		row := &verifC12Row2{verifC12Row: verifC12Row{K: "store", H: "rpc", Idx: p.Idx, Theme: p.Theme, Mon: []string{}, MonQ: []int{}}}
+		if generated || len(ops2) == 0 {
+			row.Ops = oprows
+			row.Q = qs
+			ask(row)
+			row.Pool = verifC12PoolHex(p)
+			o.emit(row)
+		} else {
+			warm := &verifC12Row2{verifC12Row: verifC12Row{Mon: []string{}, MonQ: []int{}}}
+			warm.Q = q1
+			ask(warm)
+		}
+		if len(ops2) > 0 {
+			runOps(ops2)
+			row2 := &verifC12Row2{verifC12Row: verifC12Row{K: "store", H: "rpc", Idx: p.Idx, Theme: p.Theme, Mon: []string{}, MonQ: []int{}}, Pre: nOps1}
+			row2.Ops = oprows
+			if generated {
+				for _, q := range qs {
+					row2.Q1 = append(row2.Q1, verifC12Fresh(q))
+					if q.T != "gap" || p.GapOK {
+						row2.Q = append(row2.Q, verifC12Fresh(q))
+					}
+				}
+			} else {
+				row2.Q1 = q1
+				row2.Q = qs
+			}
+			ask(row2)
+			row2.Pool = verifC12PoolHex(p)
+			o.emit(row2)
+		}
 		d.Close()
 		os.RemoveAll(dir)
 	}
@@ -183,4 +251,89 @@ func TestVerifC12Rpc(t *testing.T) {
 	for idx := 0; idx < verifC12NStores(); idx++ {
 		one(verifC12MakePlan(r, idx), nil)
 	}
+}
+
+// a row of the RPC harness: [Pre] = number of stores made before the first round of requests [Q1]; [Q] was asked after all stores
+type verifC12Row2 struct {
+	verifC12Row
+	Pre int              `json:"pre,omitempty"`
+	Q1  []*verifC12Query `json:"q1,omitempty"`
+}
+
+func verifC12Fresh(q *verifC12Query) *verifC12Query {
+	return &verifC12Query{T: q.T, EC: q.EC, AI: q.AI, AHex: q.AHex, TC: q.TC, Seq: q.Seq, Seqs: append([]uint64(nil), q.Seqs...)}
+}
+
+// second-phase stores for a plan: for some stored VAAs an overwrite with other signature bytes / another body under the same
+// identifier, and a VAA of the same emitter and sequence under another target chain; returns also the lookups of those sibling
+// identifiers (asked in the first round while they are still absent)
+func verifC12Phase2(r *verifC12Rng, p *verifC12Plan) ([]*verifC12Op, []*verifC12Query) {
+	var ops []*verifC12Op
+	var qs []*verifC12Query
+	seen := map[string]bool{}
+	for _, op := range p.Ops {
+		seen[fmt.Sprintf("%d/%x/%d/%d", op.V.EmitterChain, op.V.EmitterAddress, op.V.TargetChain, op.V.Sequence)] = true
+	}
+	n := 0
+	for _, op := range p.Ops {
+		if op.Odd != "" || n >= 10 {
+			continue
+		}
+		v := op.V
+		ai := verifC12PoolIndex(p, v.EmitterAddress)
+		switch r.below(3) {
+		case 0: // overwrite: same identifier, same length, other signature bytes
+			w := verifC12VAA(r, uint16(v.EmitterChain), v.EmitterAddress, uint16(v.TargetChain), v.Sequence)
+			w.Payload = append([]byte(nil), v.Payload...)
+			w.Signatures = nil
+			for _, sg := range v.Signatures {
+				ns := &vaa.Signature{Index: sg.Index}
+				copy(ns.Signature[:], r.bytes(65))
+				w.Signatures = append(w.Signatures, ns)
+			}
+			ops = append(ops, &verifC12Op{V: w})
+			n++
+		case 1: // sibling: another target chain, same emitter and sequence
+			tc := verifC12Chains[r.below(len(verifC12Chains))]
+			if rel := verifC12Related(uint16(v.TargetChain)); len(rel) > 0 && r.below(2) == 0 {
+				tc = rel[r.below(len(rel))]
+			}
+			k := fmt.Sprintf("%d/%x/%d/%d", v.EmitterChain, v.EmitterAddress, tc, v.Sequence)
+			if seen[k] {
+				continue
+			}
+			seen[k] = true
+			ops = append(ops, &verifC12Op{V: verifC12VAA(r, uint16(v.EmitterChain), v.EmitterAddress, tc, v.Sequence)})
+			qs = append(qs, &verifC12Query{T: "get", EC: uint32(v.EmitterChain), AI: ai, TC: uint32(tc), Seq: v.Sequence})
+			n++
+		}
+	}
+	return ops, qs
+}
+
+// replay of a two-phase row: the number of first-phase stores and the first-phase requests recorded in the replay file
+func verifC12ReplayPre() (int, []*verifC12Query) {
+	raw, err := os.ReadFile(os.Getenv("VERIF_REPLAY"))
+	if err != nil {
+		return 0, nil
+	}
+	var rp struct {
+		FailingInputs []struct {
+			Harness string           `json:"harness"`
+			Pre     int              `json:"pre"`
+			Q1      []*verifC12Query `json:"q1"`
+		} `json:"failing_inputs"`
+	}
+	if json.Unmarshal(raw, &rp) != nil {
+		return 0, nil
+	}
+	for _, fi := range rp.FailingInputs {
+		if fi.Harness == "rpc" && fi.Pre > 0 {
+			for _, q := range fi.Q1 {
+				q.Code, q.B, q.Resp, q.First, q.Last, q.Ents, q.IDs = 0, "", nil, 0, 0, nil, nil
+			}
+			return fi.Pre, fi.Q1
+		}
+	}
+	return 0, nil
 }
